@@ -26,7 +26,7 @@ pub fn top1000() -> Vec<&'static str> {
 /// Frozen per-language vocabulary: every accented letter of the language's tables (both cases),
 /// expanding folds, inflected forms that the stemmers shorten, function words, short codes.
 pub fn vocab(lang: &str) -> Vec<&'static str> {
-    let mut v: Vec<&'static str> = match lang {
+    let mut v: Vec<&'static str> = match base_lang(lang) {
         "de" => vec![
             "der", "die", "das", "und", "mit", "für", "zu", "an", "auf", "ja", "bloß", "während", "über", "straße",
             "Straße", "STRASSE", "mädchen", "Mädchen", "mitteltöner", "Mitteltöner", "Passstraße", "größe", "Größe",
@@ -80,6 +80,7 @@ pub fn vocab(lang: &str) -> Vec<&'static str> {
         "xc" => vec![
             "über", "u\u{308}ber", "Über", "U\u{308}ber", "café", "cafe\u{301}", "CAFE\u{301}", "\u{212b}ngstrom", "\u{c5}ngstrom", "Ärger", "A\u{308}rger", "schön", "scho\u{308}n",
             "metal", "mailbox", "yellow", "detector", "the", "of", "straße", "uber", "cafe", "ö", "o\u{308}", "möbel", "mo\u{308}bel", "naïve", "e\u{301}", "été", "e\u{301}te\u{301}",
+            "auto\u{ad}mat", "automat", "\u{ad}soft", "hy\u{ad}\u{ad}phen", "end\u{ad}",
         ],
         "xr" => vec![
             "café", "cafe", "CAFÉ", "cafe\u{301}", "straße", "strasse", "STRASSE", "GROẞ", "groß", "smørrebrød", "smoerrebroed", "Øl", "øl", "été", "ete", "é", "ß", "ø",
@@ -100,6 +101,9 @@ pub fn vocab(lang: &str) -> Vec<&'static str> {
             "straße", "élève", "ёлка", "niño", "cœur", "Über", "zoë", "İstanbul", "ǅungla", "ﬁsh", "ǆ", "ß",
         ],
     };
+    if lang == "xd" {
+        v.extend(vec!["café", "cafe\u{301}", "Éclair", "E\u{301}clair", "résumé", "re\u{301}sume\u{301}", "idee", "idée"]);
+    }
     v.extend(vec![
         "wifi", "wi", "fi", "usb", "t", "x", "50s", "50's", "500w", "a4", "shirt", "aa", "ab", "aab", "abab", "t-shirt",
         "wi-fi", "3d", "mp3", "2x4", "b",
@@ -508,7 +512,7 @@ pub fn scale_ratings(rng: &mut Rng, ratings: &mut Vec<usize>) {
 
 /// Inflectional endings the Snowball stemmers strip (some with accents), to glue onto random stems.
 pub fn suffixes(lang: &str) -> Vec<&'static str> {
-    match lang {
+    match base_lang(lang) {
         "en" => vec!["ing", "ed", "es", "s", "ly", "ness", "ation", "ies"],
         "de" => vec!["en", "er", "ung", "ungen", "chen", "lich", "ös", "ünde"],
         "es" => vec!["ción", "ciones", "ando", "os", "ía", "és", "mente"],
